@@ -273,7 +273,7 @@ static void declare_into(nitro::options::parser& p, const decl_t& d, std::set<st
     default: all_m(); all_t(); all_o(); break;
     }
     if (d.allowed == "~") p.accept_positionals();
-    else p.accept_positionals(static_cast<std::size_t>(std::atol(d.allowed.c_str())));
+    else p.accept_positionals(static_cast<std::size_t>(std::strtoull(d.allowed.c_str(), nullptr, 10)));
     p.greedy_postionals(d.greedy == "1");
 }
 
@@ -554,7 +554,7 @@ static std::string run_case(const std::vector<std::string>& w)
             if (o.rev) x.allow_reverse();
         }
         if (df[0] == "~") p.accept_positionals();
-        else p.accept_positionals(static_cast<std::size_t>(std::atol(df[0].c_str())));
+        else p.accept_positionals(static_cast<std::size_t>(std::strtoull(df[0].c_str(), nullptr, 10)));
         if (df[1] == "1") p.greedy_postionals();
         };
         auto one = [&](nitro::options::parser& q, const std::vector<std::string>& args) -> std::string {
